@@ -150,6 +150,21 @@ def checkLoadEnv (j : Json) : Except String Verdict := do
       | some want => if (jstrArr out field).toOption.getD [] != want.splitOn "," then
           v := v.mons ["C14", "C11"] "deployment_default_as_stated" 0 s!"{var}={want} loaded as {(jstrArr out field).toOption.getD []}"
       | none => pure ()
+    -- every other setting the deployment states: in force as stated
+    let secsS (d : String) : String := match secs d with | some n => s!"{n}s" | none => d
+    let gotm := (out.getObjVal? "got").toOption.getD Json.null
+    match env with
+    | .obj kvs =>
+      for (k, want) in kvs.toList do
+        match get gotm k with
+        | some g =>
+          let w := want.getStr?.toOption.getD ""
+          let wn := if k.endsWith "_EXPIRE" || k.endsWith "_TIMEOUT" then secsS w else w
+          if g != wn then
+            v := v.mons (if k.startsWith "CLIENT_" || k.startsWith "PROVIDER_" then ["C14", "C08", "C19"] else if k == "REQUESTSIGNER_KEY" then ["C14", "C12"] else ["C14"])
+              "setting_as_stated" 0 s!"{k}={w} is in force as '{g}'"
+        | none => pure ()
+    | _ => pure ()
     match get env "UPSTREAM_DEFAULT_GROUPS" with
     | some g =>
       let gotG := (jstrArr out "defaultGroups").toOption.getD []
